@@ -129,6 +129,10 @@ func (r *Recorder) Record(scenario interface{}, out *Outcome) []Viol {
 			own = append(own, v)
 		} else if !r.failed {
 			r.foreign[v.Property+":"+v.Oracle]++
+			if os.Getenv("VERIF_DEBUG_FOREIGN") != "" && r.foreign[v.Property+":"+v.Oracle] == 1 {
+				raw, _ := json.Marshal(scenario)
+				fmt.Printf("FOREIGN %s/%s: %s\nSCENARIO %s\n", v.Property, v.Oracle, v.Msg, raw)
+			}
 		}
 	}
 	if r.failed {
